@@ -65,6 +65,8 @@ class R:
         if not m:
             self.fail("expected number")
         self.i = m.end()
+        if len(m.group()) > 4000:
+            self.fail("number does not fit 32 bits (thousands of digits)")
         v = int(m.group())
         if nz and v == 0:
             self.fail("nz-number is 0")
@@ -100,6 +102,8 @@ class R:
         m = re.compile(r"\{(\d+)\+?\}\r\n").match(self.t, self.i)
         if not m:
             self.fail("expected literal")
+        if len(m.group(1)) > 4000:
+            self.fail("literal longer than input")
         n = int(m.group(1))
         start = m.end()
         if start + n > len(self.t):
